@@ -256,6 +256,69 @@ func runC11(c *fw.Ctx) {
 				}
 			}
 			for w := 0; w < writes && !p.failed; w++ {
+				if r.Chance(1, 6) {
+					// a container that already sits in the tree is stored at one of its own ancestors' slots, at its own
+					// slot, or at an unrelated position (reference semantics: one instance at two places); it can never
+					// reach the slots above the write position, so no cycle arises
+					paths, vals := model.AllPaths(root, 300)
+					var cands []int
+					for k, v := range vals {
+						if v.Ref != nil {
+							cands = append(cands, k)
+						}
+					}
+					if len(cands) > 0 {
+						k := cands[r.Intn(len(cands))]
+						q := paths[k]
+						segs, _ := model.SplitPath(q)
+						var path string
+						switch r.Intn(3) {
+						case 0: // its own slot
+							path = q
+							c.Count("inner_container_written_to_own_slot")
+						case 1: // the slot of one of its ancestors
+							cut := r.Range(1, len(segs))
+							path = ""
+							for _, sg := range segs[:cut] {
+								path += string(sg.Sigil) + sg.Text
+							}
+							c.Count("inner_container_written_over_ancestor")
+						default: // elsewhere, unless that would put it inside itself
+							path = genWritePath(c, r, root)
+							inside := map[*model.Node]bool{}
+							collectReachable(vals[k].Ref, inside)
+							bad := false
+							cur := root
+							wsegs, okw := model.WellFormed(root.K, path)
+							if !okw {
+								bad = true
+							}
+							for _, sg := range wsegs {
+								if cur == nil {
+									break
+								}
+								if inside[cur] {
+									bad = true
+								}
+								var nx model.Val
+								if sg.Sigil == '.' && cur.K == spec.Obj {
+									nx = cur.M[sg.Text]
+								} else if sg.Sigil == '#' && cur.K == spec.List {
+									if ix, okx := model.CanonIndex(sg.Text); okx && ix < len(cur.E) {
+										nx = cur.E[ix]
+									}
+								}
+								cur = nx.Ref
+							}
+							if bad {
+								path = q
+							}
+							c.Count("inner_container_written_elsewhere")
+						}
+						c11Set(p, root, path, vals[k])
+						continue
+					}
+				}
 				if r.Chance(3, 4) {
 					path := genWritePath(c, r, root)
 					v := c11Value(p, root)
